@@ -27,3 +27,25 @@ PROPS["C11"] = dict(
                  "buffer arithmetic is covered by the ASan runs"],
     budget_s=dict(quick=600, thorough=2400),
 )
+
+# ---------------------------------------------------------------- C02
+def _both_providers(harness, **kw):
+    return lambda tier: [dict(harness=harness, args=["--param", 0], **kw), dict(harness=harness, args=["--param", 1], **kw)]
+
+PROPS["C02"] = dict(
+    level="exploration",
+    technique="exhaustive enumeration of the finite configuration x key x header x route x signature matrix on the real code against a reference decision function",
+    level_text=("the property's quantifier is a finite matrix; every cell (configured alg x key x key alg attribute x header alg x "
+                "route x signature kind, checker and builder side, both providers) is executed on the real library and compared "
+                "with ref_policy; acceptance is judged one-directionally (accepted => permitted)"),
+    level_note="trusts ref_policy/ref_crypto in the harness (libcrypto primitives on the harness's own PEM keys) and ASan for the crash clause",
+    rule=("cells = configured alg (16) x key (absent + pool) x JWK alg attribute x header alg text (33 incl. case variants, prefix, "
+          "missing, non-string) x route (setkey, callback key+alg, callback key only, callback alg only, setkey+no-op callback) x "
+          "signature kind (empty, garbage, valid for the header's alg under the real key, HMAC with empty key, HMAC with the "
+          "public PEM) plus builder cells; a cell is non-trivial when the library accepted/produced a token and the reference "
+          "confirmed pinned alg, header text, key family/size and signature; distinct by cell descriptor"),
+    runs=_both_providers("policy"),
+    bound=dict(quick="6 keys x 5-6 attributes, all algs/headers/routes/signature kinds", thorough="17 keys x 17 attributes, all algs/headers/routes/signature kinds"),
+    assumptions=["attacker-computable keys are the empty key and the public PEM text; other derived keys (DER, raw n) are not enumerated"],
+    budget_s=dict(quick=600, thorough=3000),
+)
